@@ -30,3 +30,22 @@ Theorem C12_refusals : forall topo known self r,
   (epr_check topo known self r = Create <-> may_create topo known self r = true).
 Proof. exact epr_check_spec. Qed.
 Print Assumptions C12_refusals.
+
+(* "every other node when no topology is configured" *)
+Theorem C12_no_topology_everyone_else : forall known self r,
+  may_create None known self r = true <-> In r known /\ r <> self.
+Proof. exact may_create_no_topology. Qed.
+Print Assumptions C12_no_topology_everyone_else.
+
+(* directed reading: only the requesting node's own row decides; rows of other nodes never grant or revoke anything for it *)
+Theorem C12_only_own_row_decides : forall t1 t2 known self r,
+  assoc t1 self = assoc t2 self ->
+  epr_check (Some t1) known self r = epr_check (Some t2) known self r.
+Proof. exact epr_check_only_own_row. Qed.
+Print Assumptions C12_only_own_row_decides.
+
+(* a configured topology only restricts the fully connected default *)
+Theorem C12_topology_only_restricts : forall t known self r,
+  may_create (Some t) known self r = true -> may_create None known self r = true.
+Proof. exact may_create_topology_restricts. Qed.
+Print Assumptions C12_topology_only_restricts.
